@@ -221,20 +221,21 @@ def minimal_bad(j, backend, out, budget):
 
 _CACHE = {}
 TRANSPARENT = ('Product', 'RawProduct')     # printed flat (no parentheses of their own) inside a multiplicative context
+QUOTIENTS = ('Quotient', 'RawQuotient')     # their numerator is printed flat as well
 
 
 def cached_bad(tree, backend, budget):
-    """Verdict if the stand-alone tree is mis-printed else None; results are shared by all cases of the shard
-    (edge/path trees are canonical: all operands are variables named in order)"""
+    """explanation text if the stand-alone tree is mis-printed else None; results are shared by all cases of the
+    shard (edge/path trees are canonical: all operands are variables named in order)"""
     key = (backend, json.dumps(tree))
     if key not in _CACHE:
         if budget[0] <= 0:
             return None
         budget[0] -= 1
-        if len(_CACHE) > 20000:
+        if len(_CACHE) > 50000:
             _CACHE.clear()
         v = fresh_check(tree, backend)
-        _CACHE[key] = v if is_bad(v) else None
+        _CACHE[key] = explain(v, backend) if is_bad(v) else None
     return _CACHE[key]
 
 
@@ -251,15 +252,27 @@ def path_tree(node, path, fresh=None):
     return with_children(node, kids)
 
 
-def product_paths(c, prefix):
-    """paths from a transparent Product c down to interesting descendants through nested transparent Products"""
-    for k, (_, g) in enumerate(children(c)):
-        if k == 0 and gen.is_neg_form(c):
-            continue
-        if interesting_child(g):
-            yield prefix + [k], g
-        if g[0] in TRANSPARENT:
-            yield from product_paths(g, prefix + [k])
+def windows(j, maxlen=5):
+    """all chains (top node, [indices]) whose inner nodes are transparent Products, ordered by length;
+    the last node of a chain is an 'interesting' child (operator or signed literal)"""
+    out = []
+
+    def extend(top, path, node, length):
+        for k, (_, g) in enumerate(children(node)):
+            if k == 0 and gen.is_neg_form(node):
+                continue
+            if length > 1 and node[0] in QUOTIENTS and k != 0:
+                continue        # below the top only numerators are printed flat
+            if interesting_child(g):
+                out.append((length + 1, top, path + [k]))
+            if length + 1 < maxlen and (g[0] in TRANSPARENT or g[0] in QUOTIENTS):
+                extend(top, path + [k], g, length + 1)
+
+    for node in walk(j):
+        if node[0] not in gen.LEAVES:
+            extend(node, [], node, 1)
+    out.sort(key=lambda w: w[0])
+    return [(top, path) for _, top, path in out]
 
 
 def sig_path(backend, node, slot, mids, idxs, g):
@@ -268,7 +281,7 @@ def sig_path(backend, node, slot, mids, idxs, g):
         # seen through unary minus only: same root cause as the direct parent/child edge
         return f'C06:{backend}gen:{norm(node)}.{slot}={norm(g)}'
     leftmost = all(k == (1 if gen.is_neg_form(m) else 0) for m, k in zip(mids, idxs))
-    return f'C06:{backend}gen:{norm(node)}.{slot}=Product..{"first" if leftmost else "rest"}={norm(g)}'
+    return f'C06:{backend}gen:{norm(node)}.{slot}=Mul..{"first" if leftmost else "rest"}={norm(g)}'
 
 
 def wrap_at(j, targets):
@@ -291,7 +304,7 @@ def diagnose(j, backend, stats=None):
     """-> list of (signature, minimal J-tree, detail)"""
     findings = []
     self_bad = set()
-    budget = [80]
+    budget = [60]
 
     def bad(tree):
         return cached_bad(tree, backend, budget)
@@ -301,49 +314,37 @@ def diagnose(j, backend, stats=None):
         if node[0] in gen.LEAVES or describe(node) in self_bad:
             continue
         e = self_tree(node)
-        v = bad(e)
-        if v is not None:
+        why = bad(e)
+        if why is not None:
             self_bad.add(describe(node))
-            findings.append((f'C06:{backend}gen:{norm(node)}:self', e, explain(v, backend)))
-    # 2. parent/child edges; the failing ones are repaired with Parenthesised* nodes
+            findings.append((f'C06:{backend}gen:{norm(node)}:self', e, why))
+    # 2. minimal failing chains parent -> child (-> grandchild ... through products that are printed flat, e.g.
+    #    a*(b*(c/d)) -> a*b*c / d or k / -(i*j) -> k / -i*j). A chain is tested only if none of its sub-chains
+    #    fails, so that every root cause is reported once, at its shortest witness.
+    tainted = set()
     targets = set()
-    for node in walk(j):
-        if describe(node) in self_bad:
+    for top, path in windows(j):
+        nodes = [top]
+        for k in path:
+            nodes.append(children(nodes[-1])[k][1])
+        if any(describe(n) in self_bad for n in nodes):
             continue
-        for index, (slot, c) in enumerate(children(node)):
-            if not interesting_child(c) or describe(c) in self_bad:
-                continue
-            e = path_tree(node, [index])
-            v = bad(e)
-            if v is not None:
-                targets.add((id(node), index))
-                findings.append((sig_edge(backend, node, slot, c), e, explain(v, backend)))
+        key = (id(top), tuple(path))
+        if len(path) > 1 and ((id(top), tuple(path[:-1])) in tainted or (id(nodes[1]), tuple(path[1:])) in tainted):
+            tainted.add(key)
+            continue
+        e = path_tree(top, path)
+        why = bad(e)
+        if why is not None:
+            tainted.add(key)
+            targets.add((id(top), path[0]))
+            slot = children(top)[path[0]][0]
+            if len(path) == 1:
+                findings.append((sig_edge(backend, top, slot, nodes[1]), e, why))
+            else:
+                findings.append((sig_path(backend, top, slot, nodes[1:-1], path[1:], nodes[-1]), e, why))
     fixed = wrap_at(j, targets) if targets else j
     v = fresh_check(fixed, backend)
-    if is_bad(v):
-        # 3. chains through products that are printed flat: a*(b*(c/d)) -> a*b*c / d, k / -(i*j) -> k / -i*j
-        targets = set()
-        for node in walk(fixed):
-            if describe(node) in self_bad or node[0] in gen.LEAVES:
-                continue
-            for index, (slot, c) in enumerate(children(node)):
-                if c[0] not in TRANSPARENT or describe(c) in self_bad:
-                    continue
-                for path, g in product_paths(c, [index]):
-                    if describe(g) in self_bad:
-                        continue
-                    e = path_tree(node, path)
-                    vv = bad(e)
-                    if vv is not None:
-                        mids, cur = [], node
-                        for k in path[:-1]:
-                            cur = children(cur)[k][1]
-                            mids.append(cur)
-                        targets.add((id(node), index))
-                        findings.append((sig_path(backend, node, slot, mids, path[1:], g), e, explain(vv, backend)))
-        if targets:
-            fixed = wrap_at(fixed, targets)
-            v = fresh_check(fixed, backend)
     if is_bad(v):
         if budget[0] <= 0:
             if stats is not None:
